@@ -23,7 +23,9 @@ pub struct SampleCase {
     pub dist: DistSpec,
     pub words: Vec<u64>,
     pub seed: u64,
-    /// 0: Dist::sample, 1: Counter::sample_value, 2: framework (timeout/duration/limit of a one-state machine)
+    /// 0: Dist::sample, 1: Counter::sample_value, 2: framework (timeout/duration/limit of a one-state machine),
+    /// 3: the validation that decides is Machine::new (the distribution sits in a state without
+    ///    outgoing transitions), and what it accepts is run in the framework
     pub via: u8,
     /// run the first sample in a child process under a 2 s limit (demonstration of listed findings)
     pub isolate: bool,
@@ -158,6 +160,80 @@ pub fn probe_sample(json: &str) -> i32 {
     }
 }
 
+/// The distribution inside a machine: state 0 leads (probability 1) to state 1, which has no
+/// outgoing transitions and uses the distribution for its counter update, timeout, duration and
+/// limit. Whatever `Machine::new` accepts is run; a panic, a hang or an out-of-range timeout is a
+/// violation.
+fn via_machine(c: &SampleCase, obs: &mut Obs) -> Result<(), Failure> {
+    if on_binv_path(&c.dist).is_some() {
+        return Ok(());
+    }
+    let actions = [
+        ActionSpec::Pad { bypass: false, replace: false, timeout: c.dist, limit: Some(c.dist) },
+        ActionSpec::Block { bypass: false, replace: true, timeout: c.dist, duration: c.dist, limit: None },
+        ActionSpec::Timer { replace: false, duration: c.dist, limit: Some(c.dist) },
+    ];
+    let machines: Vec<MachineSpec> = actions
+        .iter()
+        .map(|a| MachineSpec {
+            allowed_padding_packets: u64::MAX,
+            max_padding_frac: Fx(0.0),
+            allowed_blocked_microsec: u64::MAX,
+            max_blocking_frac: Fx(0.0),
+            states: vec![
+                StateSpec { action: None, counter_a: None, counter_b: None, trans: vec![(0, vec![(1, Fs(1.0))])] },
+                StateSpec {
+                    action: Some(*a),
+                    counter_a: Some(CounterSpec { op: 0, dist: Some(c.dist), copy: false }),
+                    counter_b: None,
+                    trans: vec![],
+                },
+            ],
+        })
+        .collect();
+    let Ok(built) = build_machines(&machines) else {
+        obs.hit("rejected_by_validation");
+        return Ok(());
+    };
+    obs.hit("via_machine_validation");
+    if c.dist.to_dist().validate().is_err() {
+        // Machine::new accepted what Dist::validate rejects: it is run all the same, and C12
+        // reports the disagreement itself
+        obs.hit("machine_accepts_what_dist_validate_rejects");
+    }
+    let case = FwCase {
+        machines: machines.clone(),
+        max_padding_frac: Fx(0.0),
+        max_blocking_frac: Fx(0.0),
+        start: 0,
+        words: c.words.clone(),
+        seed: c.seed,
+        calls: vec![],
+    };
+    let budget = c.words.len() as u64 + 100_000;
+    let mut run = FwRun::new(&case, built, Some(budget * 4)).map_err(|e| Failure {
+        signature: "framework-new-rejects-validated-machines".into(),
+        detail: e,
+    })?;
+    // event index 0 of `trans` is NormalRecv
+    let rec = run.call(&Call { clock: Clock::Add(10), events: vec![Ev::NormalRecv] });
+    for a in &rec.actions {
+        let (t, du) = match *a {
+            Act::Pad { timeout, .. } => (timeout, 0),
+            Act::Block { timeout, duration, .. } => (timeout, duration),
+            Act::Timer { duration, .. } => (0, duration),
+            _ => (0, 0),
+        };
+        if t > 86_400_000_000 || du > 86_400_000_000 {
+            return fail("timeout-or-duration-above-24h", format!("{a:?} from {:?}", c.dist));
+        }
+    }
+    if !rec.actions.is_empty() {
+        obs.nontrivial();
+    }
+    Ok(())
+}
+
 impl Prop for C13 {
     type Case = SampleCase;
     fn admissible(c: &SampleCase) -> bool {
@@ -176,10 +252,10 @@ impl Prop for C13 {
 
     fn strategy(profile: &str) -> BoxedStrategy<SampleCase> {
         match profile {
-            "wild" => (candidate_dist(), extreme_words(12), any::<u64>(), 0u8..3)
+            "wild" => (candidate_dist(), extreme_words(12), any::<u64>(), 0u8..4)
                 .prop_map(|(dist, words, seed, via)| SampleCase { dist, words, seed, via, isolate: false })
                 .boxed(),
-            "fair" => (candidate_dist(), any::<u64>(), 0u8..3)
+            "fair" => (candidate_dist(), any::<u64>(), 0u8..4)
                 .prop_map(|(dist, seed, via)| SampleCase { dist, words: vec![], seed, via, isolate: false })
                 .boxed(),
             "binomial" => (
@@ -220,6 +296,9 @@ impl Prop for C13 {
     }
 
     fn check(c: &SampleCase, obs: &mut Obs) -> Result<(), Failure> {
+        if c.via == 3 {
+            return via_machine(c, obs);
+        }
         let d = c.dist.to_dist();
         // validation itself runs here, under the watchdog (rand_distr constructors can loop)
         if d.validate().is_err() {
@@ -380,7 +459,7 @@ impl Prop for C13 {
         vec![
             "Uniform", "Normal", "SkewNormal", "LogNormal", "Binomial", "Geometric", "Pareto", "Poisson", "Weibull",
             "Gamma", "Beta", "scripted_prefix", "start_or_max_nan_or_infinite", "clamped_to_max", "via_counter",
-            "via_framework", "isolated_demonstration", "rejected_by_validation",
+            "via_framework", "via_machine_validation", "isolated_demonstration", "rejected_by_validation",
         ]
     }
 
